@@ -5,6 +5,7 @@ import (
 	"fmt"
 	"go/ast"
 	"go/format"
+	"go/parser"
 	"go/token"
 	"go/types"
 	"os"
@@ -92,7 +93,12 @@ func mapOrderMain(dir string, patterns []string, simenvPath string) {
 				rs.Key = ast.NewIdent("_")
 				rs.Value = ast.NewIdent(keyName)
 				rs.Tok = token.DEFINE
-				rs.X = &ast.CallExpr{Fun: &ast.SelectorExpr{X: ast.NewIdent("simenv"), Sel: ast.NewIdent("Keys")}, Args: []ast.Expr{ast.NewIdent(mv)}}
+				var keysFn ast.Expr = &ast.SelectorExpr{X: ast.NewIdent("simenv"), Sel: ast.NewIdent("Keys")}
+				if simenvPath == "" {
+					// the package under rewrite defines simKeys itself (lib/go: overlay/zz_keys.go)
+					keysFn = ast.NewIdent("simKeys")
+				}
+				rs.X = &ast.CallExpr{Fun: keysFn, Args: []ast.Expr{ast.NewIdent(mv)}}
 				rs.Body.List = append(pre, rs.Body.List...)
 				// wrap: { _simM := m; for ... }
 				if _, labeled := c.Parent().(*ast.LabeledStmt); labeled {
@@ -106,7 +112,9 @@ func mapOrderMain(dir string, patterns []string, simenvPath string) {
 			}
 			total += n
 			f.Comments = nil
-			astutil.AddNamedImport(p.Fset, f, "simenv", simenvPath)
+			if simenvPath != "" {
+				astutil.AddNamedImport(p.Fset, f, "simenv", simenvPath)
+			}
 			var buf bytes.Buffer
 			if err := format.Node(&buf, p.Fset, f); err != nil {
 				die("format %s: %v", name, err)
@@ -117,4 +125,75 @@ func mapOrderMain(dir string, patterns []string, simenvPath string) {
 		}
 	}
 	fmt.Printf("simgen maporder: %d map range loops rewritten (%d with pointer keys)\n", total, ptrKeys)
+}
+
+// mapOrderUntyped does the same for generated code, where no type information is needed to tell a map from a
+// slice: frugal's Go generator walks lists with `for _, v := range` and maps and sets with a named key
+// (`for k, v := range`, `for v, _ := range`). Should that ever change, a slice handed to Keys does not compile.
+func mapOrderUntyped(dir string, simenvPath string) {
+	total := 0
+	fset := token.NewFileSet()
+	var names []string
+	filepath.Walk(dir, func(path string, info os.FileInfo, err error) error {
+		if err == nil && !info.IsDir() && filepath.Ext(path) == ".go" {
+			names = append(names, path)
+		}
+		return nil
+	})
+	sort.Strings(names)
+	for _, name := range names {
+		f, err := parser.ParseFile(fset, name, nil, 0)
+		if err != nil {
+			die("parse %s: %v", name, err)
+		}
+		n := 0
+		astutil.Apply(f, nil, func(c *astutil.Cursor) bool {
+			rs, ok := c.Node().(*ast.RangeStmt)
+			if !ok || rs.Tok != token.DEFINE {
+				return true
+			}
+			key, ok := rs.Key.(*ast.Ident)
+			if !ok || key.Name == "_" {
+				return true
+			}
+			if _, labeled := c.Parent().(*ast.LabeledStmt); labeled {
+				die("%s: labeled range is not supported", fset.Position(rs.Pos()))
+			}
+			n++
+			mv := fmt.Sprintf("_simM%d", n)
+			hoist := &ast.AssignStmt{Lhs: []ast.Expr{ast.NewIdent(mv)}, Tok: token.DEFINE, Rhs: []ast.Expr{rs.X}}
+			valName := "_"
+			if id, ok := rs.Value.(*ast.Ident); ok {
+				valName = id.Name
+			} else if rs.Value != nil {
+				die("%s: unsupported range value expression", fset.Position(rs.Pos()))
+			}
+			pre := []ast.Stmt{
+				&ast.AssignStmt{Lhs: []ast.Expr{ast.NewIdent(valName), ast.NewIdent("_simOK")}, Tok: token.DEFINE,
+					Rhs: []ast.Expr{&ast.IndexExpr{X: ast.NewIdent(mv), Index: ast.NewIdent(key.Name)}}},
+				&ast.IfStmt{Cond: &ast.UnaryExpr{Op: token.NOT, X: ast.NewIdent("_simOK")},
+					Body: &ast.BlockStmt{List: []ast.Stmt{&ast.BranchStmt{Tok: token.CONTINUE}}}},
+			}
+			rs.Key = ast.NewIdent("_")
+			rs.Value = ast.NewIdent(key.Name)
+			rs.X = &ast.CallExpr{Fun: &ast.SelectorExpr{X: ast.NewIdent("simenv"), Sel: ast.NewIdent("Keys")}, Args: []ast.Expr{ast.NewIdent(mv)}}
+			rs.Body.List = append(pre, rs.Body.List...)
+			c.Replace(&ast.BlockStmt{List: []ast.Stmt{hoist, rs}})
+			return true
+		})
+		if n == 0 {
+			continue
+		}
+		total += n
+		f.Comments = nil
+		astutil.AddNamedImport(fset, f, "simenv", simenvPath)
+		var buf bytes.Buffer
+		if err := format.Node(&buf, fset, f); err != nil {
+			die("format %s: %v", name, err)
+		}
+		if err := os.WriteFile(name, buf.Bytes(), 0o644); err != nil {
+			die("write: %v", err)
+		}
+	}
+	fmt.Printf("simgen maporder (generated code): %d range loops over maps and sets rewritten\n", total)
 }
